@@ -3,6 +3,7 @@ package rules
 import (
 	"fmt"
 	"go/token"
+	"go/types"
 	"strings"
 
 	"golang.org/x/tools/go/ssa"
@@ -193,6 +194,60 @@ func runC18(p *load.Program, r *core.Report) {
 		}
 		if len(frames) != 1 {
 			probs = append(probs, fmt.Sprintf("%d remote frame sites (expected 1 in the loop over the set of remote nodes)", len(frames)))
+		}
+		// every subscriber is served: each element of the list read from the target manager is either
+		// sent to locally or its node is put into the set the frame loop ranges over
+		if fan != nil && len(sends) == 1 && len(frames) == 1 {
+			var elem ssa.Instruction
+			eachInstr(send, func(in ssa.Instruction) {
+				if ia, ok := in.(*ssa.IndexAddr); ok && ia.X == fan.(ssa.Value) {
+					elem = in
+				}
+			})
+			var sets []ssa.Value
+			isServe := func(in ssa.Instruction) bool {
+				if in == sends[0] {
+					return true
+				}
+				if mu, ok := in.(*ssa.MapUpdate); ok {
+					if mt, okm := mu.Map.Type().Underlying().(*types.Map); okm && namedOf(mt.Key()) == "gen.Atom" {
+						sets = append(sets, mu.Map)
+						return true
+					}
+				}
+				_, isPanic := in.(*ssa.Panic)
+				return isPanic
+			}
+			switch {
+			case elem == nil:
+				probs = append(probs, "the subscriber list returned by the target manager is not walked element by element")
+			default:
+				if to := resolveLocalCopy(callCommon(sends[0]).Args[2]); true {
+					if ld, ok := to.(*ssa.UnOp); !ok || ld.X != elem.(ssa.Value) {
+						probs = append(probs, "the local send is not addressed to the element of the subscriber list")
+					}
+				}
+				hdr := loopHeaderOf(elem)
+				if hdr == nil {
+					probs = append(probs, "the subscriber walk is not a loop")
+				} else if hit := reaches([]Point{after(elem)}, isServe, func(in ssa.Instruction) bool { return in.Block() == hdr && in == hdr.Instrs[0] }); hit != nil {
+					probs = append(probs, "an iteration of the subscriber loop can end without a local send and without recording the subscriber's node: that subscriber never gets the event")
+				}
+				// the frame loop ranges over the recorded set
+				okRange := false
+				eachInstr(send, func(in ssa.Instruction) {
+					if rg, ok := in.(*ssa.Range); ok {
+						for _, m := range sets {
+							if rg.X == m {
+								okRange = true
+							}
+						}
+					}
+				})
+				if len(sets) == 0 || !okRange {
+					probs = append(probs, "the set of remote subscriber nodes is not the one the frame loop ranges over")
+				}
+			}
 		}
 		if len(probs) > 0 {
 			r.Bad(rule, key3, fn, p.Pos(send.Pos()), inst3, strings.Join(probs, "; "))
